@@ -33,6 +33,7 @@ class Taint:
         self.src_suffix = tuple(self.t["source_call_suffixes"])
         self.tfields = set(self.t["tainted_fields"])
         self.clean_calls = set(self.t.get("clean_calls", []))
+        self.clean_fns = set(self.t.get("clean_in_function", {}))
         self.params = set()      # (fn_short, param_index)
         self.upvars = set()      # (closure_short, upvar_index)
         self.closure_elems = set()  # closure_short whose non-env params are tainted
@@ -56,6 +57,8 @@ class Taint:
     def tainted(self, e, fn, ignore_params=False, why=None, len_clean=False):
         """len_clean: lengths/counts of in-memory collections are treated as small (they cannot overflow when
         added to / multiplied by small constants) — used for Add/Mul overflow sinks only"""
+        if fn in self.clean_fns or (fn.rsplit("::{closure", 1)[0] in self.clean_fns):
+            return False
         if len_clean:
             e = _mask_lengths(e)
         for s in self._walk_clean(e):
@@ -224,10 +227,11 @@ def sink_kind_of_call(cv):
 
 
 class Sink:
-    __slots__ = ("fn", "body", "block", "kind", "ops", "where", "desc", "exp")
+    __slots__ = ("fn", "body", "block", "kind", "ops", "where", "desc", "exp", "tys")
 
-    def __init__(self, fn, body, block, kind, ops, where, desc, exp):
+    def __init__(self, fn, body, block, kind, ops, where, desc, exp, tys=None):
         self.fn, self.body, self.block, self.kind, self.ops, self.where, self.desc, self.exp = fn, body, block, kind, ops, where, desc, exp
+        self.tys = tys or []
 
 
 def collect_sinks(taint, skip_fn=lambda f: False):
@@ -247,11 +251,17 @@ def collect_sinks(taint, skip_fn=lambda f: False):
                     k = m["k"]
                     if k == "Overflow":
                         ops = [o.operand(m["a"], (bi, "term")), o.operand(m["b"], (bi, "term"))]
-                        out.append(Sink(f, b, bi, "Overflow:" + m["op"], ops, b.where(bi), "%s(%s, %s)" % (m["op"], show(ops[0])[:80], show(ops[1])[:80]), t.get("exp")))
+                        tys = [(m[x]["p"]["ty"] if m[x]["k"] in ("copy", "move") else m[x].get("ty")) for x in ("a", "b")]
+                        out.append(Sink(f, b, bi, "Overflow:" + m["op"], ops, b.where(bi), "%s(%s, %s)" % (m["op"], show(ops[0])[:80], show(ops[1])[:80]), t.get("exp"), tys))
                     elif k == "BoundsCheck":
                         ops = [o.operand(m["len"], (bi, "term")), o.operand(m["index"], (bi, "term"))]
                         out.append(Sink(f, b, bi, "BoundsCheck", ops, b.where(bi), "index %s < len %s" % (show(ops[1])[:80], show(ops[0])[:80]), t.get("exp")))
-                    elif k in ("DivisionByZero", "RemainderByZero", "OverflowNeg"):
+                    elif k in ("DivisionByZero", "RemainderByZero"):
+                        # the message carries the dividend; the divisor is the operand compared with 0 in the condition
+                        c = core(o.operand(t["cond"], (bi, "term")))
+                        ops = [c[2] if (c[0] == "bin" and c[1] == "Eq" and is_const(core(c[3]))) else (c[3] if c[0] == "bin" and c[1] == "Eq" else o.operand(m["a"], (bi, "term")))]
+                        out.append(Sink(f, b, bi, k, ops, b.where(bi), "%s(divisor %s)" % (k, show(ops[0])[:80]), t.get("exp")))
+                    elif k in ("OverflowNeg",):
                         ops = [o.operand(m["a"], (bi, "term"))]
                         out.append(Sink(f, b, bi, k, ops, b.where(bi), "%s(%s)" % (k, show(ops[0])[:80]), t.get("exp")))
                 elif t["k"] == "call":
@@ -334,3 +344,286 @@ def guarded_unwrap(sink, taint):
             return (v == 1 and "Option" in sink.desc) or False
         return False
     return all(any(lit_ok(at, v) for (at, v) in c) for c in dnf)
+
+
+# ------------------------------------------------------------------------------------ value ranges
+TYPE_MAX = {"u8": 255, "u16": 65535, "u32": (1 << 32) - 1, "u64": (1 << 64) - 1, "usize": (1 << 64) - 1, "u128": (1 << 128) - 1,
+            "i8": 127, "i16": 32767, "i32": (1 << 31) - 1, "i64": (1 << 63) - 1, "isize": (1 << 63) - 1, "bool": 1, "char": 0x10FFFF}
+LEN_MAX = (1 << 63) - 1
+
+
+def maxval(e, bounds=None):
+    """an upper bound of the (non-negative) value of an origin expression, or None when unknown.
+    bounds: optional dict nosite(core(expr)) -> upper bound derived from dominating guards"""
+    e0 = e
+    e = strip(e)
+    if bounds:
+        k = nosite(core(e))
+        if k in bounds:
+            inner = maxval_raw(e, bounds)
+            return bounds[k] if inner is None else min(inner, bounds[k])
+    return maxval_raw(e, bounds)
+
+
+def maxval_raw(e, bounds):
+    k = e[0]
+    if k == "const" and isinstance(e[1], int):
+        return e[1] if e[1] >= 0 else None
+    if k == "cast":
+        inner = maxval(e[1], bounds)
+        lim = min(TYPE_MAX.get(e[2], 1 << 128), TYPE_MAX.get(e[3], 1 << 128))
+        if e[2].startswith("i"):
+            # a negative source could become huge; only the target type bounds it
+            lim = TYPE_MAX.get(e[3], 1 << 128)
+            return lim if lim < (1 << 128) else None
+        return lim if inner is None else min(inner, lim)
+    if k == "len":
+        return LEN_MAX
+    if k == "bin":
+        op = e[1]
+        a, b = maxval(e[2], bounds), maxval(e[3], bounds)
+        if op == "BitAnd":
+            c = [x for x in (a, b) if x is not None]
+            return min(c) if c else None
+        if op in ("Shr", "ShrUnchecked") and a is not None and is_const(strip(e[3])):
+            return a >> strip(e[3])[1]
+        if op == "Rem" and b is not None:
+            return max(b - 1, 0)
+        if op in ("Add", "AddUnchecked") and a is not None and b is not None:
+            return a + b
+        if op in ("Mul", "MulUnchecked") and a is not None and b is not None:
+            return a * b
+        if op in ("Sub", "SubUnchecked") and a is not None:
+            return a
+        if op == "Div" and a is not None:
+            return a
+        if op in ("Eq", "Ne", "Lt", "Le", "Gt", "Ge"):
+            return 1
+        return None
+    if k == "call":
+        ls = lastseg(e[1])
+        if ls in ("len", "count", "capacity"):
+            if e[2] and strip(e[2][0])[0] == "array":
+                return len(strip(e[2][0])[1])
+            return LEN_MAX
+        if ls == "min" and len(e[2]) == 2:
+            c = [x for x in (maxval(e[2][0], bounds), maxval(e[2][1], bounds)) if x is not None]
+            return min(c) if c else None
+        if ls == "max" and len(e[2]) == 2:
+            a, b = maxval(e[2][0], bounds), maxval(e[2][1], bounds)
+            return None if a is None or b is None else max(a, b)
+        if ls in ("saturating_sub", "wrapping_sub") and e[2]:
+            return maxval(e[2][0], bounds)
+        if ls == "size_of" or ls == "size_with" or ls == "size_of_val":
+            return 4096
+        return None
+    if k == "phi":
+        vs = [maxval(x, bounds) for x in e[1] if x[0] != "loop"]
+        if vs and all(v is not None for v in vs) and not any(x[0] == "loop" for x in e[1]):
+            return max(vs)
+        return None
+    return None
+
+
+def guard_bounds(sink, taint):
+    """upper bounds on expressions implied by comparisons against constants that hold on every path to the sink"""
+    body = sink.body
+    o = taint.origin(body)
+    dnf = conditions(body, sink.block, origin=o, relevant=lambda at: at[0] == "bin" and at[1] in ("Lt", "Le", "Gt", "Ge"), cap=4000)
+    if not dnf:
+        return {}
+    per = []
+    for c in dnf:
+        d = {}
+        for (at, v) in c:
+            op, x, y = at[1], strip(at[2]), strip(at[3])
+            for (lhs, rhs, o2) in ((x, y, op), (y, x, {"Lt": "Gt", "Le": "Ge", "Gt": "Lt", "Ge": "Le"}[op])):
+                m = maxval(rhs)
+                if m is None:
+                    continue
+                ub = None
+                if o2 == "Lt" and v == 1:
+                    ub = m - 1
+                elif o2 == "Le" and v == 1:
+                    ub = m
+                elif o2 == "Ge" and v == 0:
+                    ub = m - 1
+                elif o2 == "Gt" and v == 0:
+                    ub = m
+                if ub is not None:
+                    k = nosite(core(lhs))
+                    d[k] = min(d.get(k, ub), ub)
+        per.append(d)
+    keys = set(per[0])
+    for d in per[1:]:
+        keys &= set(d)
+    return {k: max(d[k] for d in per) for k in keys}
+
+
+def range_discharge(sink, taint, op_types):
+    """discharge by value ranges (type widths, masks, constant-compared guards)"""
+    kind = sink.kind
+    try:
+        bounds = guard_bounds(sink, taint)
+    except Exception:
+        bounds = {}
+    if kind in ("Overflow:Add", "Overflow:Mul"):
+        a, b = maxval(sink.ops[0], bounds), maxval(sink.ops[1], bounds)
+        lim = TYPE_MAX.get(op_types[0] or "usize", (1 << 64) - 1)
+        if a is not None and b is not None:
+            r = a + b if kind.endswith("Add") else a * b
+            return r <= lim
+        return False
+    if kind in ("Overflow:Shl", "Overflow:Shr"):
+        b = maxval(sink.ops[1], bounds)
+        bits = {"u8": 8, "i8": 8, "u16": 16, "i16": 16, "u32": 32, "i32": 32}.get(op_types[0] or "usize", 64)
+        return b is not None and b < bits
+    if kind == "BoundsCheck":
+        ln, idx = sink.ops
+        lnc = strip(ln)
+        i = maxval(idx, bounds)
+        if is_const(lnc) and i is not None:
+            return i < lnc[1]
+        return False
+    if kind in ("call:index", "call:index_mut"):
+        base, ix = strip(sink.ops[0]), strip(sink.ops[1])
+        n = None
+        if base[0] == "call" and lastseg(base[1]) == "from_elem" and is_const(strip(base[2][1])):
+            n = strip(base[2][1])[1]
+        if base[0] == "array":
+            n = len(base[1])
+        if ix[0] == "agg" and ix[1].endswith("RangeFull"):
+            return True
+        if ix[0] != "agg":
+            i = maxval(ix, bounds)
+            return n is not None and i is not None and i < n
+        return slice_ok(base, ix, sink, taint, bounds)
+    if kind == "call:copy_from_slice":
+        return copy_len_equal(sink.ops[0], sink.ops[1])
+    if kind == "DivisionByZero" or kind == "RemainderByZero":
+        # divisor > 0 on every path
+        body = sink.body
+        o = taint.origin(body)
+        dnf = conditions(body, sink.block, origin=o, relevant=lambda at: at[0] == "bin" and at[1] in ("Lt", "Le", "Gt", "Ge", "Eq", "Ne"))
+        d = sink.ops[0]
+        def ok(at, v):
+            x, y, op = at[2], at[3], at[1]
+            if _same(x, d) and is_const(core(y)) and core(y)[1] == 0:
+                return (op in ("Gt", "Ne") and v == 1) or (op in ("Eq", "Le") and v == 0)
+            return False
+        return bool(dnf) and all(any(ok(at, v) for (at, v) in c) for c in dnf)
+    if kind == "Overflow:Sub":
+        a, b = strip(sink.ops[0]), strip(sink.ops[1])
+        # x - x % m
+        cb = core(b)
+        if cb[0] == "bin" and cb[1] == "Rem" and _same(cb[2], a):
+            return True
+        # x - min(x, ..) / x - saturating..
+        if cb[0] == "call" and lastseg(cb[1]) == "min" and any(_same(z, a) for z in cb[2]):
+            return True
+        # max(b, ..) - b
+        ca = core(a)
+        if ca[0] == "call" and lastseg(ca[1]) == "max" and any(_same(z, b) for z in ca[2]):
+            return True
+        return False
+    return False
+
+
+def _len_of(base):
+    return lambda e: (strip(e)[0] == "len" and _same(strip(e)[1], base)) or (strip(e)[0] == "call" and lastseg(strip(e)[1]) == "len" and strip(e)[2] and _same(strip(e)[2][0], base))
+
+
+def _clamped_to_len(e, base):
+    """e <= len(base) structurally: e is len(base), or min(.., len(base)..), or min of clamped things"""
+    e = strip(core(e))
+    is_len = _len_of(base)
+    if is_len(e):
+        return True
+    if e[0] == "call" and lastseg(e[1]) == "min" and len(e[2]) >= 2:
+        return any(_clamped_to_len(z, base) for z in e[2])
+    return False
+
+
+def slice_ok(base, rng, sink, taint, bounds):
+    name = rng[1].split("::")[-1]
+    d = dict(rng[3])
+    start = d.get("start")
+    end = d.get("end")
+    okend = True
+    if end is not None:
+        okend = _clamped_to_len(end, base)
+    okstart = True
+    if start is not None:
+        s0 = strip(core(start))
+        if is_const(s0) and s0[1] == 0:
+            okstart = True
+        elif end is not None:
+            okstart = _same(start, end) or (is_const(s0) and maxval(end) is not None and False)
+        else:
+            okstart = _clamped_to_len(start, base) or start_guarded(start, base, sink, taint)
+    return okend and okstart
+
+
+def start_guarded(start, base, sink, taint):
+    """RangeFrom start: every path carries start <= len(base) - c or start < len(base) or start <= len(base)"""
+    body = sink.body
+    o = taint.origin(body)
+    dnf = conditions(body, sink.block, origin=o, relevant=lambda at: at[0] == "bin" and at[1] in ("Lt", "Le", "Gt", "Ge"))
+    if not dnf:
+        return False
+    is_len = _len_of(base)
+
+    def rhs_ok(y):
+        y = strip(core(y))
+        if is_len(y):
+            return True
+        if y[0] == "bin" and y[1] == "Sub" and is_len(y[2]):
+            return True
+        if y[0] == "call" and lastseg(y[1]) in ("saturating_sub", "wrapping_sub") and is_len(y[2][0]):
+            return lastseg(y[1]) == "saturating_sub"
+        return False
+
+    def ok(at, v):
+        x, y, op = at[2], at[3], at[1]
+        if _same(x, start) and rhs_ok(y):
+            return (op in ("Lt", "Le") and v == 1) or (op in ("Gt",) and v == 0)
+        if _same(y, start) and rhs_ok(x):
+            return (op in ("Gt", "Ge") and v == 1) or (op in ("Lt",) and v == 0)
+        return False
+    return all(any(ok(at, v) for (at, v) in c) for c in dnf)
+
+
+INT_BYTES = {"u8": 1, "i8": 1, "u16": 2, "i16": 2, "u32": 4, "i32": 4, "u64": 8, "i64": 8, "usize": 8, "isize": 8, "u128": 16, "i128": 16}
+
+
+def _static_len(e):
+    """length of a slice-valued expression when statically known"""
+    e = strip(e)
+    if e[0] == "call":
+        ls = lastseg(e[1])
+        if ls in ("to_ne_bytes", "to_le_bytes", "to_be_bytes"):
+            for t, n in INT_BYTES.items():
+                if "<impl %s>" % t in e[1]:
+                    return n
+        if ls == "next":
+            for s in walk(e):
+                if s[0] == "call" and lastseg(s[1]) in ("chunks_exact_mut", "chunks_exact") and is_const(strip(s[2][1])):
+                    return strip(s[2][1])[1]
+    if e[0] == "array":
+        return len(e[1])
+    return None
+
+
+def copy_len_equal(dst, src):
+    a, b = _static_len(dst), _static_len(src)
+    if a is not None and a == b:
+        return True
+    d, s2 = strip(dst), strip(src)
+    # both are x[..n] with the same n
+    if d[0] == "call" and s2[0] == "call" and lastseg(d[1]) in ("index", "index_mut") and lastseg(s2[1]) in ("index", "index_mut"):
+        r1, r2 = strip(d[2][1]), strip(s2[2][1])
+        if r1[0] == "agg" and r2[0] == "agg" and r1[1] == r2[1]:
+            d1, d2 = dict(r1[3]), dict(r2[3])
+            if set(d1) == set(d2) and all(_same(d1[k], d2[k]) for k in d1):
+                return True
+    return False
